@@ -1,4 +1,5 @@
 import Gv.Model.Fmt.Common
+import Gv.Model.Fmt.Utf8
 import Gv.Model.Fmt.Phylip
 /-!
 Model of `io/clustal/{lexer,parser,writer}.go` as the code is.
@@ -183,6 +184,11 @@ def parseR (checksRowIndex : Bool) (o : POpts) (bs : Seq) : R Aln := do
 /-- `clustal.NewParser(r).IgnoreIdentical(i).Alphabet(a).Parse()` -/
 def parse (checksRowIndex : Bool) (o : POpts) (bs : Seq) : Outcome Aln :=
   toOutcome (parseR checksRowIndex o bs)
+
+/-- `Parse()` on the raw input, ALL byte strings; `none` = no claim (the input holds U+0131 / U+017F, which
+`strings.ToUpper` maps to `I` / `S` in the keyword test) -/
+def parseBytes (checksRowIndex : Bool) (o : POpts) (bs : Seq) : Option (Outcome Aln) :=
+  if Utf8.hasFoldRune bs then none else some (parse checksRowIndex o (Utf8.norm bs))
 
 /-! ### writer -/
 
